@@ -6,6 +6,7 @@ import (
 	"github.com/uhppoted/uhppote-core/encoding/bcd"
 
 	"verif/harness/internal/cases"
+	"verif/harness/internal/rng"
 )
 
 func init() { streams["bcd"] = streamBCD }
@@ -96,6 +97,31 @@ func streamBCD(c *ctx) {
 			bs := []byte{byte(a), byte(b)}
 			w.Emit("bcd-dec "+cases.Hex(bs), bcdDec(bs), "dec/len2")
 		}
+	}
+	// long slices (33..200 bytes), a failing one (valid digits up to a bad nibble near the end) right before a valid one:
+	// a result must not depend on what was decoded before
+	for i := 0; i < 300*c.scale; i++ {
+		n := 33 + c.r.Intn(168)
+		bad := make([]byte, n)
+		good := make([]byte, 33+c.r.Intn(168))
+		for j := range bad {
+			bad[j] = byte(c.r.Intn(10)<<4 | c.r.Intn(10))
+		}
+		for j := range good {
+			good[j] = byte(c.r.Intn(10)<<4 | c.r.Intn(10))
+		}
+		bad[n-1-c.r.Intn(3)] |= rng.Pick(c.r, byte(0x0a), 0xa0, 0x0f, 0xf0)
+		w.Emit("bcd-dec "+cases.Hex(bad), bcdDec(bad), "dec/long-bad-near-end")
+		w.Emit("bcd-dec "+cases.Hex(good), bcdDec(good), "dec/long-valid-after-failure")
+		// and the encoder the same way round
+		ds := make([]byte, 70+c.r.Intn(100))
+		for j := range ds {
+			ds[j] = byte('0' + c.r.Intn(10))
+		}
+		db := append([]byte{}, ds...)
+		db[len(db)-1-c.r.Intn(3)] = rng.Pick(c.r, byte('a'), ':', '/', ' ')
+		w.Emit("bcd-enc "+cases.Hex(db), bcdEnc(db), "enc/long-bad-near-end")
+		w.Emit("bcd-enc "+cases.Hex(ds), bcdEnc(ds), "enc/long-valid-after-failure")
 	}
 	for i := 0; i < 20000*c.scale; i++ {
 		n := 3 + c.r.Intn(10)
